@@ -555,6 +555,20 @@ def flag(ctx, cg):
             if r.kind == "dispatch" and r.target == "withParent" and r.is_call:
                 ctx.check("C09.flag.root", f, r.node, f.qual == "Interpreter.interpret",
                           "environment re-parented outside Interpreter.interpret")
+    # modules evaluated under one base flag must not be visible to an interpreter built with another:
+    # the module cache and load stack are per-root instance state, never class-level
+    einit = env.methods.get("__init__")
+    t_ = norm(einit.node).replace("\n", " ") if einit else ""
+    ok = "if self.parent is None: self.modules = dict() self.modulestack = []" in t_
+    ctx.check("C09.flag.modcache", einit or "Environment.__init__", einit.node if einit else None, ok,
+              "the module cache is not per-root instance state: a secure interpreter could be handed module "
+              "environments (with OS built-ins bound) that a non-secure interpreter of the same process loaded",
+              expr="per-root module cache", site="Environment.__init__: module cache created per root environment")
+    for nm, val in env.class_attrs.items():
+        mutable = isinstance(val, (ast.Dict, ast.List, ast.Set)) or (isinstance(val, ast.Call) and norm(val.func) in ("dict", "list", "set"))
+        ctx.check("C09.flag.modcache", f"class Environment", val, not mutable,
+                  f"class-level mutable attribute Environment.{nm} is shared by every interpreter in the process",
+                  expr=f"Environment.{nm}", site=f"Environment.{nm}: not a shared container")
     # the gate reads the root through getBase(), which walks parents to the end
     gb = env.methods.get("getBase")
     ok = gb is not None and "while current.parent" in norm(gb.node) and "return current" in norm(gb.node)
